@@ -72,7 +72,12 @@ def _run_entry(args):
     sc = tempfile.mkdtemp(prefix="verif_mut_", dir=os.environ.get("TMPDIR", "/tmp"))
     try:
         shutil.copytree(os.path.join(repo_root, "liquer"), os.path.join(sc, "liquer"), ignore=shutil.ignore_patterns("__pycache__"))
-        if not apply_entry(sc, e):
+        if e.get("patch"):
+            import subprocess
+            r = subprocess.run(["patch", "-p1", "--no-backup-if-mismatch", "-s", "-i", e["patch"]], cwd=sc, capture_output=True, text=True)
+            if r.returncode != 0:
+                return e["name"], "stale", []
+        elif not apply_entry(sc, e):
             return e["name"], "stale", []
         mod = importlib.import_module(f"sa.rules.{prop.lower()}")
         try:
@@ -87,9 +92,31 @@ def _run_entry(args):
         shutil.rmtree(sc, ignore_errors=True)
 
 
+# seeded changes that are deliberately not reported (reason in DESIGN.md 7.2): listing exactness is undecided
+SEEDS_NOT_DECIDED = {"C07-r2-3"}
+
+
+def _seed_entries(prop):
+    import glob
+    import json
+    from .core import VERIF
+    out = []
+    for meta in sorted(glob.glob(os.path.join(VERIF, "seeded", "*", "meta.json"))):
+        d = os.path.dirname(meta)
+        name = os.path.basename(d)
+        try:
+            m = json.load(open(meta))
+        except Exception:
+            continue
+        if m.get("property") != prop or name in SEEDS_NOT_DECIDED:
+            continue
+        out.append({"kind": "mutant", "name": "seed:" + name, "props": [prop], "patch": os.path.join(d, "patch.diff"), "edits": [], "rules": {}})
+    return out
+
+
 def run_for(prop, chk):
     from .catalogue import CATALOGUE
-    entries = [e for e in CATALOGUE if prop in e["props"]]
+    entries = [e for e in CATALOGUE if prop in e["props"]] + _seed_entries(prop)
     if not entries:
         chk.extra["selftest"] = {"entries": 0}
         return
